@@ -53,6 +53,11 @@ func (rt *Transfer) RecvFiles(fileList []*File) error {
 }
 
 func (rt *Transfer) recvFile1(f *File) error {
+	if rt.listOnly() {
+		// We only list: no file was requested, and there is no destination
+		// to receive one into.
+		return fmt.Errorf("protocol error: unexpected file data for %s while listing", f.Name)
+	}
 	if rt.Opts.DryRun {
 		if !rt.Opts.Server {
 			fmt.Fprintln(rt.Env.Stdout, f.Name)
